@@ -5,14 +5,14 @@ from hypothesis import strategies as st
 import pytenet as ptn
 from core import Part, require, known_listed
 from lanczos_monitor import LanczosMonitor
-from gen_dyn import ham_and_state, complete_case, build_ham, dense_ham, dense_state, sector_mask, gauge_edit
+from gen_dyn import ham_and_state, complete_case, ham_desc, complete_manifold, build_ham, dense_ham, dense_state, sector_mask, gauge_edit
 from gen_qn import build_mps
 from oracle_dense import mps_mask_violation
 
 ID = 'C10'
 RULE = ('cases = (Hermitian MPO as in C08 with and without charges, L 2..5, d 2..4, random start state in a sector with arbitrary bond profile; algorithm single-site | two-site; '
         '1..4 sweeps; 2..8 Lanczos iterations or enough (>= local dimension); tol_split in {0, 1e-8, 1e-2} for two-site; optional second invocation on the result); second part: '
-        'complete manifolds with enough iterations (exact ground state energy of the sector must be reached). Non-trivial: start energy exceeds the sector ground energy by > 1e-3 scale and a bond >= 2.')
+        'complete manifolds with enough iterations (exact ground state energy of the sector must be reached); third part: L = 2 two-site DMRG (the block is the whole space) from basis product states, sparse states and generic states with enough iterations: every reported energy equals the smallest eigenvalue reachable from the start vector. Non-trivial: start energy exceeds the sector ground energy by > 1e-3 scale and a bond >= 2.')
 KEY_F5 = 'dmrg-local-eigensolver-past-undetected-lanczos-breakdown'
 
 ASSUME = ['known finding F5 at its DMRG call site: when a local Lanczos iteration of the run continued past an undetected breakdown (observed at run time by wrapping pytenet.krylov.lanczos_iteration and '
@@ -221,7 +221,100 @@ def gen_converges(draw, tier):
     return c
 
 
+def check_full_block(case, rec):
+    """L = 2, two-site DMRG with zero split tolerance: the single two-site block is the whole state space, so with enough Lanczos
+    iterations the local solve is a global Krylov solve and the first reported energy is the smallest eigenvalue reachable from
+    the start vector (C15), whatever the start state looks like (basis product state, sparse, generic)."""
+    H = build_ham(case['ham'])
+    qd = [int(q) for q in H.qd]
+    d = len(qd)
+    rng = np.random.default_rng(case['seed'])
+    kind = case['start']
+    q0 = case['q0']
+    if kind == 'basis':
+        s0, s1 = case['path']
+        qD = [[q0], [q0 + qd[s0]], [q0 + qd[s0] + qd[s1]]]
+    else:
+        qD, _ = complete_manifold(qd, 2, case['path'])
+        qD = [[q + q0 for q in qs] for qs in qD]
+    psi = ptn.MPS(qd, qD, fill='postpone')
+    A = []
+    for i in range(2):
+        shape = (d, len(qD[i]), len(qD[i + 1]))
+        mask = np.add.outer(np.add.outer(np.asarray(qd), np.asarray(qD[i])), -np.asarray(qD[i + 1])) == 0
+        X = rng.normal(size=shape) + (1j * rng.normal(size=shape) if case['complex'] else 0)
+        if kind == 'sparse':
+            X = np.where(rng.random(size=shape) < 0.4, X, 0)
+        A.append(np.where(mask, X, 0) * case['scale'])
+    psi.A = A
+    v0 = dense_state(psi)
+    n0 = np.linalg.norm(v0)
+    if n0 == 0:
+        rec.skip('zero state')
+        return
+    Hd = dense_ham(H)
+    scale = max(1.0, np.linalg.norm(Hd, 2))
+    w, U = np.linalg.eigh(Hd)
+    comp = np.abs(U.conj().T @ (v0 / n0)) ** 2
+    # eigenvalue clusters and the weight of the start vector in each
+    clusters = []
+    for lam, c in zip(w, comp):
+        if clusters and abs(lam - clusters[-1][0]) <= 1e-9 * scale:
+            clusters[-1][1] += c
+        else:
+            clusters.append([lam, c])
+    wts = np.sqrt(np.array([c for _, c in clusters]))
+    if np.any((wts > 1e-12) & (wts < 1e-5)):
+        rec.skip('start vector has a nearly vanishing eigen-component: reachable spectrum numerically fuzzy')
+        return
+    target = min(lam for (lam, _), x in zip(clusters, wts) if x >= 1e-5)
+    kdim = int(np.sum(wts >= 1e-5))
+    iters = d * d + 2
+    HA0 = [a.copy() for a in H.A]
+    with LanczosMonitor() as mon:
+        try:
+            en = ptn.calculate_ground_state_local_twosite(H, psi, case['sweeps'], numiter_lanczos=iters, tol_split=0)
+        except Exception:
+            if mon.past_breakdown and known_listed(ID, KEY_F5):
+                rec.label('lanczos_past_breakdown', 'aborted_after_breakdown')
+                rec.excluded_known += 1
+                return
+            raise
+    rec.label('start_' + kind, 'model_' + (case['ham'].get('model') or 'random'), 'krylov_dim=%d' % min(kdim, 6))
+    if mon.past_breakdown:
+        rec.label('lanczos_past_breakdown')
+        if known_listed(ID, KEY_F5):
+            rec.excluded_known += 1
+            return
+    en = np.asarray(en)
+    require(en.shape == (case['sweeps'],), 'wrong shape of the energy array', shape=en.shape)
+    require(np.all(np.abs(en - target) <= 1e-8 * scale), 'two-site DMRG on L = 2 (block = whole space, enough iterations) did not reach the smallest eigenvalue reachable from the start vector',
+            energies=en.tolist(), reachable_minimum=float(target), start_energy=float(np.vdot(v0, Hd @ v0).real / n0 ** 2), krylov_dim=kdim)
+    v1 = dense_state(psi)
+    require(abs(np.linalg.norm(v1) - 1) <= 1e-10, 'returned state is not normalized')
+    res = np.linalg.norm(Hd @ v1 - en[-1] * v1)
+    require(res <= 1e-6 * scale, 'returned state is not an eigenvector for the reported energy', residual=float(res))
+    require(all(a.tobytes() == b.tobytes() for a, b in zip(H.A, HA0)), 'the Hamiltonian was modified')
+    require(np.array_equal(psi.qD[0], qD[0]) and np.array_equal(psi.qD[-1], qD[-1]), 'total quantum numbers of the state changed')
+    for i, a in enumerate(psi.A):
+        require(len(psi.qD[i]) == a.shape[1] and len(psi.qD[i + 1]) == a.shape[2], 'charge list length differs from bond dimension', site=i)
+        require(mps_mask_violation(a, psi.qd, psi.qD[i], psi.qD[i + 1]) == 0, 'tensor not block sparse', site=i)
+    rec.metric('full_block_err', float(np.max(np.abs(en - target))) / scale)
+    rec.nontrivial = bool(kdim >= 2 and float(np.vdot(v0, Hd @ v0).real / n0 ** 2) - target > 1e-3 * scale)
+
+
+@st.composite
+def gen_full_block(draw, tier):
+    h = draw(ham_desc(Lmin=2, Lmax=2, dense_cap=256))
+    d = h['d']
+    return {'ham': h, 'start': draw(st.sampled_from(['basis', 'basis', 'sparse', 'random'])), 'path': [draw(st.integers(0, d - 1)), draw(st.integers(0, d - 1))],
+            'q0': draw(st.sampled_from([0, 0, 2, -1])), 'complex': draw(st.booleans()), 'scale': draw(st.sampled_from([1.0, 1.0, 0.01, 30.0])),
+            'sweeps': draw(st.sampled_from([1, 2, 3])), 'seed': draw(st.integers(0, 2**31 - 1))}
+
+
 PARTS = [
+    Part('full_block', check_full_block, strategy=gen_full_block, n={'quick': 200, 'thorough': 3000}, workers={'quick': 4, 'thorough': 16},
+         doc='L = 2 two-site DMRG from basis product states, sparse and generic states: the reachable minimum must be reported'),
     Part('dmrg', check_dmrg, strategy=gen_dmrg, n={'quick': 250, 'thorough': 2000}, workers={'quick': 6, 'thorough': 16}),
     Part('complete_manifold', check_converges, strategy=gen_converges, n={'quick': 200, 'thorough': 1000}, workers={'quick': 4, 'thorough': 16}),
 ]
